@@ -74,6 +74,7 @@ class TreeGrammar:
                 self.roots = set(d['roots'])
                 self.stats = d['stats']
                 self.witness = {tuple(k.split('@')[:1] + [int(k.split('@')[1])] + k.split('@')[2:]): v for k, v in d['witness'].items()}
+                self.term = d['term']
                 return
             except Exception:
                 pass
@@ -81,7 +82,7 @@ class TreeGrammar:
         os.makedirs(cache, exist_ok=True)
         tmp = path + '.%d.tmp' % os.getpid()
         json.dump({'arity': {k: sorted(v) for k, v in self.arity.items()}, 'child': {'%s@%d' % k: sorted(v) for k, v in self.child.items()},
-                   'roots': sorted(self.roots), 'stats': self.stats, 'witness': {'%s@%d@%s' % k: v for k, v in self.witness.items()}}, open(tmp, 'w'))
+                   'roots': sorted(self.roots), 'stats': self.stats, 'term': self.term, 'witness': {'%s@%d@%s' % k: v for k, v in self.witness.items()}}, open(tmp, 'w'))
         os.replace(tmp, path)
         for old in sorted(os.listdir(cache), key=lambda f: os.path.getmtime(os.path.join(cache, f)))[:-30]:
             try:
@@ -348,6 +349,13 @@ class TreeGrammar:
         self.stats['root_kinds'] = {n: len(v) for n, v in W.items()}
 
     # ------------------------------------------------------------------ queries
+    def sentences(self):
+        """the distinct witness sentences as token lists [(TokenID name, payload, width)]"""
+        out = []
+        for text in sorted(set(self.witness.values())):
+            out.append((text, [(self.term[t], PAYLOAD.get(self.term[t]), 1) for t in text.split()]))
+        return out
+
     def kinds(self):
         return set(self.arity)
 
